@@ -28,7 +28,7 @@ ResMatch(x, y) ==
   /\ \A k \in 1..Len(x) :
        /\ x[k].d = y[k].d /\ x[k].kind = y[k].kind /\ x[k].nonce = y[k].nonce /\ x[k].salt = y[k].salt
        /\ x[k].init = y[k].init /\ x[k].f4 = y[k].f4 /\ x[k].ok = y[k].ok /\ x[k].id = y[k].id
-       /\ x[k].how = y[k].how /\ x[k].kept = y[k].kept
+       /\ (x[k].how = "resurrect") = (y[k].how = "resurrect") /\ x[k].kept = y[k].kept
 
 Explained(e) ==
   IF ~IsCall(e) THEN FALSE
